@@ -450,7 +450,6 @@ func short(s string) string {
 	return s
 }
 
-
 var (
 	minNS = time.Unix(0, math.MinInt64)
 	maxNS = time.Unix(0, math.MaxInt64)
